@@ -140,7 +140,7 @@ CLAIMED.update({'C03': ("Bounded symbolic check of manifest-derived lifetimes: m
          'documented fallbacks, nothing scheduled once the limit is exhausted; per-peer in-flight counters equal the outstanding requests and stay within the limit across announcements, '
          're-announcements, dispatches and arrivals; with the real process_pending_fetches over announcement / tick / arrival sequences (symbolic peers, chunks, send outcomes, clock, retry settings, '
          'manifest expiry) a pending fetch is dropped once held locally or once its manifest has expired and no more requests than the attempt limit are sent per announced fetch.',
-         'transport sends are an arbitrary boolean outcome; role ledger and provider refresh are cut; sequences of 3 (quick) / up to 4 (thorough) events'),
+         'transport sends are an arbitrary boolean outcome; role ledger and provider refresh are cut; sequences of 2-3 events'),
  'C27': ('Bounded symbolic check of the control token gate, twice: the handlers handle_stop / handle_store / handle_fetch lifted into a class with a recording node, and the whole '
          'daemon/ControlServer.cpp (recv_line, parse_request, handle_client dispatch, handlers) driven with request bytes on a modelled socket over a partial Node: with a token configured a request '
          'without the exact token (absent, same length, shorter, longer, longer by 256 / 512 bytes; any letter case of the command word; TOKEN header before or after COMMAND) is answered '
